@@ -13,7 +13,7 @@ use crate::{
     query::query_twap_price,
     state::{read_config, read_state, store_config, store_state, Config, State},
     utils::{
-        add_reserve_snapshot, check_is_over_block_fluctuation_limit, modulo, require_margin_engine,
+        add_reserve_snapshot, check_is_over_block_fluctuation_limit, require_margin_engine,
         require_open,
     },
 };
@@ -322,31 +322,26 @@ pub fn settle_funding(deps: DepsMut, env: Env, info: MessageInfo) -> StdResult<R
 }
 
 pub fn get_input_price_with_reserves(
-    deps: Deps,
+    _deps: Deps,
     direction: &Direction,
     quote_asset_amount: Uint128,
     quote_asset_reserve: Uint128,
     base_asset_reserve: Uint128,
 ) -> StdResult<Uint128> {
-    let config: Config = read_config(deps.storage)?;
-
     if quote_asset_amount == Uint128::zero() {
         return Ok(Uint128::zero());
     }
 
-    // k = x * y (divided by decimal places)
-    let invariant_k = quote_asset_reserve
-        .checked_mul(base_asset_reserve)?
-        .checked_div(config.decimals)?;
+    // k = x * y, kept at full precision: the low-order digits that scaling down by the decimal
+    // places would drop stay with the curve instead of being given to the trader
+    let invariant_k = quote_asset_reserve.checked_mul(base_asset_reserve)?;
 
     let quote_asset_after: Uint128 = match direction {
         Direction::AddToAmm => quote_asset_reserve.checked_add(quote_asset_amount)?,
         Direction::RemoveFromAmm => quote_asset_reserve.checked_sub(quote_asset_amount)?,
     };
 
-    let base_asset_after: Uint128 = invariant_k
-        .checked_mul(config.decimals)?
-        .checked_div(quote_asset_after)?;
+    let base_asset_after: Uint128 = invariant_k.checked_div(quote_asset_after)?;
 
     let mut base_asset_bought = if base_asset_after > base_asset_reserve {
         base_asset_after - base_asset_reserve
@@ -354,7 +349,7 @@ pub fn get_input_price_with_reserves(
         base_asset_reserve - base_asset_after
     };
 
-    let remainder = modulo(invariant_k, quote_asset_after, config.decimals);
+    let remainder = invariant_k.checked_rem(quote_asset_after)?;
     if remainder != Uint128::zero() {
         if *direction == Direction::AddToAmm {
             base_asset_bought = base_asset_bought.checked_sub(Uint128::new(1u128))?;
@@ -367,30 +362,25 @@ pub fn get_input_price_with_reserves(
 }
 
 pub fn get_output_price_with_reserves(
-    deps: Deps,
+    _deps: Deps,
     direction: &Direction,
     base_asset_amount: Uint128,
     quote_asset_reserve: Uint128,
     base_asset_reserve: Uint128,
 ) -> StdResult<Uint128> {
-    let config: Config = read_config(deps.storage)?;
-
     if base_asset_amount == Uint128::zero() {
         return Ok(Uint128::zero());
     }
 
-    let invariant_k = quote_asset_reserve
-        .checked_mul(base_asset_reserve)?
-        .checked_div(config.decimals)?;
+    // full-precision k, see get_input_price_with_reserves
+    let invariant_k = quote_asset_reserve.checked_mul(base_asset_reserve)?;
 
     let base_asset_after: Uint128 = match direction {
         Direction::AddToAmm => base_asset_reserve.checked_add(base_asset_amount)?,
         Direction::RemoveFromAmm => base_asset_reserve.checked_sub(base_asset_amount)?,
     };
 
-    let quote_asset_after: Uint128 = invariant_k
-        .checked_mul(config.decimals)?
-        .checked_div(base_asset_after)?;
+    let quote_asset_after: Uint128 = invariant_k.checked_div(base_asset_after)?;
 
     let mut quote_asset_sold = if quote_asset_after > quote_asset_reserve {
         quote_asset_after - quote_asset_reserve
@@ -398,7 +388,7 @@ pub fn get_output_price_with_reserves(
         quote_asset_reserve - quote_asset_after
     };
 
-    let remainder = modulo(invariant_k, base_asset_after, config.decimals);
+    let remainder = invariant_k.checked_rem(base_asset_after)?;
     if remainder != Uint128::zero() {
         if *direction == Direction::AddToAmm {
             quote_asset_sold = quote_asset_sold.checked_sub(Uint128::from(1u128))?;
